@@ -101,5 +101,10 @@ func (f *Dotimes) Call(s *slip.Scope, args slip.List, depth int) slip.Object {
 	}
 	ns.UnsafeLet(sym, slip.Fixnum(max))
 
-	return ns.Eval(rform, d2)
+	// The result form is inside the nil block as well.
+	result := ns.Eval(rform, d2)
+	if rr, ok := result.(*slip.ReturnResult); ok && rr.Tag == nil {
+		return rr.Result
+	}
+	return result
 }
